@@ -143,7 +143,7 @@ PLAN = {
     "C01": _qplan("2-3 client threads, 1-3 submissions each over serial/concurrent/global/chained queues, ping-pong, gated and cold-pool variants",
                   "k<=2 for programs on serial hierarchies, k<=1 for programs that run on the pool concurrently",
                   "k<=3 / k<=2 (programs cut by the deadline report their completed bound)"),
-    "C02": _qplan("mixes of async/sync/barrier/async_and_wait/apply on one serial queue from 2-3 threads",
+    "C02": _qplan("mixes of async/sync/barrier/async_and_wait/apply on one serial queue from 2-3 threads, incl. the main queue drained after dispatch_main() and the main queue serviced by a run loop through the 4CF callback with a nested turn (harness mainrl)",
                   "k<=2 (k<=1 for 3-thread and pool-targeting programs)", "k<=3 / k<=2"),
     "C03": _qplan("hierarchies of depth 2-3, fan-in 2, serial/concurrent inner queues, serial or workloop bottom, retargeted inactive queues",
                   "k<=2 (k<=1 for 3-thread programs)", "k<=3 / k<=2"),
@@ -371,5 +371,6 @@ def _tasks_for(pid, tier):
         return out
     qmap = {"C01": "q01", "C02": "q02", "C03": "q03", "C04": "q04", "C05": "q05"}
     if pid in qmap:
-        return qp(qmap[pid], tier, 2 if q else 3, 1 if q else 2)
+        extra = ds("mainrl", 2 if q else 3, [0, 1, 2], jobs=4) if pid == "C02" else []     # main queue serviced by a run loop (4CF callback), nested turn
+        return qp(qmap[pid], tier, 2 if q else 3, 1 if q else 2) + extra
     raise KeyError(pid)
